@@ -584,6 +584,18 @@ func c20(c *Ctx) {
 			hx = append(hx, Hx(f))
 		}
 		c.Do(fmt.Sprintf("simreply %d %s %d %s", ver, phone, seq, strings.Join(hx, " ")), true)
+		// the same prediction checked directly against the B.6 reference, with that (high) platform serial
+		t3 := newTerm(ver, phone)
+		for _, f := range frames {
+			exp := t3.ExpectedReply(uint16(seq), Hx(f))
+			d, ok := RpDecode(exp)
+			src, _ := RpDecode(f)
+			if !ok || d.ID != stdReply[src.ID] || d.Serial != uint16(seq) || !bytes.Equal(d.BCD, src.BCD) || d.Ver != src.Ver || !bytes.Equal(d.Body, stdBody(src)) {
+				viol("expected-reply-std", "predicted reply (arbitrary platform serial) is not the reply DESIGN B.6 prescribes: type, addressing, serial, body",
+					fmt.Sprintf("simreply %d %s %d %s", ver, phone, seq, Hx(f)), Hx(exp), fmt.Sprintf("id %04x serial %d body %s", stdReply[src.ID], seq, Hx(stdBody(src))))
+				break
+			}
+		}
 		// live: the k-th frame the server writes carries platform serial k
 		toks := make([]string, 0, len(frames)+1)
 		for _, f := range frames {
